@@ -84,13 +84,13 @@ def lex(src):
 # ---------------------------------------------------------------------------
 
 class Printer:
-    """flattens abstract tokens (incl. node tokens) to [('I',s)|('P',ch)|('L',s)|('G',d,[...])].
-    `name_of(term)` concretises a symbolic spelling, `resolve(sym)` a lazy node."""
+    """flattens abstract tokens (incl. node tokens) to *view tokens*:
+    ('I',name,origin) ('P',text,origin) ('LT',name,origin) ('L',text,origin) ('G',delim,[..],origin).
+    `name_of(term)` concretises a symbolic spelling (identity keeps solver terms), `resolve(sym)` a lazy node."""
 
-    def __init__(self, name_of=None, resolve=None, keep_origin=False):
-        self.name_of = name_of or (lambda t: str(t))
+    def __init__(self, name_of=None, resolve=None):
+        self.name_of = name_of or (lambda t: t)
         self.resolve = resolve
-        self.keep_origin = keep_origin
 
     def nm(self, x):
         if isinstance(x, str):
@@ -108,53 +108,42 @@ class Printer:
             elif k == 'P':
                 self.punct(out, t[1], t[2] if len(t) > 2 else 'macro')
             elif k == 'LT':
-                self.punct(out, "'", t[2] if len(t) > 2 else 'macro')
-                self.ident(out, t[1], False, t[2] if len(t) > 2 else 'macro')
+                out.append(('LT', self.nm(t[1]), t[2] if len(t) > 2 else 'macro'))
             elif k == 'L':
-                out.append(('L', t[1]) if not self.keep_origin else ('L', t[1], t[2] if len(t) > 2 else 'input'))
+                out.append(('L', t[1], t[2] if len(t) > 2 else 'input'))
             elif k == 'G':
-                inner = self.flat(t[2])
-                out.append(('G', t[1], inner) if not self.keep_origin else ('G', t[1], inner, t[3] if len(t) > 3 else 'macro'))
+                out.append(('G', t[1], self.flat(t[2]), t[3] if len(t) > 3 else 'macro'))
             elif k == 'N':
                 self.node(t[2], out)
             elif k == 'RAW':
-                out.extend(self.raw(t))
+                out.extend(t[2])
             elif k == 'COMPILE_ERROR':
                 o = 'macro'
                 self.punct(out, '::', o); self.ident(out, 'core', False, o); self.punct(out, '::', o)
                 self.ident(out, 'compile_error', False, o); self.punct(out, '!', o)
-                msg = t[1]
-                out.append(('G', '{', [('L', rust_str_lit(self.nm(msg)))]) if not self.keep_origin
-                           else ('G', '{', [('L', rust_str_lit(self.nm(msg)), o)], o))
+                out.append(('G', '{', [('L', rust_str_lit(self.nm(t[1])) if isinstance(self.nm(t[1]), str) else ('SYMSTR', t[1]), o)], o))
             else:
                 raise Unsupported('flat: token kind ' + str(k))
         return out
 
-    def raw(self, t):
-        # opaque input tokens (function bodies, unknown items): ('RAW', label, concrete flat tokens)
-        if self.keep_origin:
-            return [add_origin(x, 'input') for x in t[2]]
-        return list(t[2])
-
     def ident(self, out, name, raw=False, origin='input'):
         s = self.nm(name)
         if raw:
-            s = 'r#' + s
-        out.append(('I', s) if not self.keep_origin else ('I', s, origin))
+            s = ('r#' + s) if isinstance(s, str) else s
+        out.append(('I', s, origin))
 
     def punct(self, out, text, origin='input'):
-        for ch in text:
-            out.append(('P', ch) if not self.keep_origin else ('P', ch, origin))
+        out.append(('P', text, origin))
 
     def tok(self, out, name, origin='input'):
         t = TOKENS[name]
         if t[0].isalpha() or t == '_':
-            out.append(('I', t) if not self.keep_origin else ('I', t, origin))
+            out.append(('I', t, origin))
         else:
-            self.punct(out, t, origin)
+            out.append(('P', t, origin))
 
     def group(self, out, delim, inner, origin='input'):
-        out.append(('G', delim, inner) if not self.keep_origin else ('G', delim, inner, origin))
+        out.append(('G', delim, inner, origin))
 
     # -- nodes ------------------------------------------------------------------
     def node(self, v, out):
@@ -224,12 +213,11 @@ class Printer:
         self.flat(v.fields[0], out)
 
     def p_Opaque(self, v, out):
-        out.extend(v.fields[1] if not self.keep_origin else [add_origin(x, 'input') for x in v.fields[1]])
+        out.extend(v.fields[1])
 
     def p_Lifetime(self, v, out):
         idn = v.fields[1]
-        self.punct(out, "'", idn.origin)
-        self.ident(out, idn.name, False, idn.origin)
+        out.append(('LT', self.nm(idn.name), idn.origin))
 
     def p_LitBool(self, v, out):
         self.ident(out, 'true' if v.fields[0] else 'false', False, 'macro')
@@ -319,7 +307,7 @@ class Printer:
         self.opt(v, 'name', out)
 
     def p_LitStr(self, v, out):
-        out.append(('L', v.fields[0]) if not self.keep_origin else ('L', v.fields[0], 'input'))
+        out.append(('L', v.fields[0], 'input'))
 
     def p_Generics(self, v, out):
         params = self.g(v, 'params')
